@@ -141,3 +141,50 @@ Print Assumptions C05_words_history.
 Print Assumptions C05_sound_words.
 Print Assumptions C05_monotone_words.
 Print Assumptions C05_accessor_marks_through_view.
+
+(* ================================================================== the order of store and mark
+   (Proofs/C05Order.v).  An effect unfolds into two micro-events, [MWrite e; MMark e]: at every write
+   site of the crate the bytes are stored first and mark_dirty is called afterwards (Impl/Dirty.v,
+   micro).  A concurrent consumer of the dirty log resets bits (MReset / MResetAll) at arbitrary
+   points BETWEEN micro-events. *)
+From VM Require Proofs.C05Order.
+
+(* In EVERY interleaving of the micro-events of an operation's effects with ANY sequence of bitmap
+   resets: a byte stored by the operation that no LATER reset clears (its page) is on a dirty page at
+   the end.  (A reset that comes later belongs to a consumer pass that then copies the page and sees
+   the stored byte; a reset that came earlier cannot hide the store, because the mark follows it.) *)
+Theorem C05_sound_under_interleaved_resets : forall rs es resets tr,
+  wf rs -> effs_ok rs es ->
+  Forall (fun ev => C05Order.is_reset_ev ev = true) resets ->
+  C05Order.interleave (flat_map micro es) resets tr ->
+  forall pre e post, tr = pre ++ MWrite e :: post ->
+  forall r, nth_error rs (e_r e) = Some r -> r_tracked r = true ->
+  forall i, e_woff e <= i < e_woff e + e_wn e ->
+  (forall ev, In ev post -> C05Order.clears (r_ps r) (e_r e) (i / r_ps r) ev = false) ->
+  D (apply_mevs rs tr) (e_r e) (i / r_ps r) = true.
+Proof. exact C05Order.sound_under_interleaved_resets_lemma. Qed.
+
+(* ... and the effect lists of every non-reset step of every well-formed state qualify *)
+Theorem C05_step_effects_exact : forall hm rs s rs' out, wf rs -> is_reset s = false ->
+  run_step hm rs s = (rs', out) -> rs' = apply_effs rs (o_effs out) /\ effs_ok rs (o_effs out).
+Proof. exact step_effs. Qed.
+
+(* what the probing bitmap of the harness counts - pages holding a byte stored after the last
+   mark_dirty call that covers the page - is zero for every step of the model *)
+Theorem C05_no_late_store : forall hm rs s rs' out, wf rs -> run_step hm rs s = (rs', out) ->
+  late_of rs' (o_effs out) = 0.
+Proof. exact C05Order.late_of_step_zero. Qed.
+
+(* the order matters: with mark before store, one consumer pass in between leaves the stored bytes
+   on a clean page; with the order of the code the same pass leaves the page dirty *)
+Example C05_mark_first_is_unsound :
+  let r := {| r_start := 0; r_size := 16; r_ps := 4; r_tracked := true; r_dirty := [false; false; false; false] |} in
+  let e := {| e_r := 0%nat; e_woff := 5; e_wn := 2; e_moff := 5; e_mlen := 2 |} in
+  wf [r] /\ effs_ok [r] [e] /\
+  D (apply_mevs [r] [MMark e; MResetAll 0; MWrite e]) 0 1 = false /\
+  D (apply_mevs [r] [MWrite e; MResetAll 0; MMark e]) 0 1 = true.
+Proof. exact C05Order.mark_first_is_unsound. Qed.
+
+Print Assumptions C05_sound_under_interleaved_resets.
+Print Assumptions C05_step_effects_exact.
+Print Assumptions C05_no_late_store.
